@@ -5,7 +5,7 @@ from . import classlaws, pipeline_c13
 def build(repo, tier, seed):
     vcs, syn, und = pipeline_c13.evaluate_spec(repo)
     syn2, und2 = pipeline_c13.add_cases(repo)
-    b = classlaws.bundle(repo, tier, seed, ("L1", "L2", "L5", "L5d", "C05"), classes=["Pipeline", "PipelineStep", "PartialApplication", "Apply"], extra_vcs=vcs, bounded=False)
+    b = classlaws.bundle(repo, tier, seed, ("L1", "L2", "L5", "L5d", "C05"), classes=["Pipeline", "PipelineStep", "PartialApplication", "Apply", "EvaluatableArgs", "EvaluatableKwargs", "EvaluatableArguments"], extra_vcs=vcs, bounded=False)
     b["syntactic"] += syn + syn2
     b["undecided"] += und + und2
     from harness import pipeline_search
